@@ -331,3 +331,50 @@ class Nullness(object):
                 else:
                     chk.inst(rule, f, c, ok, detail, loc=loc)
         return n_vars, n_uses
+
+
+NULLABLE_FIELDS = {("hwloc_obj", "name"), ("hwloc_obj", "subtype"), ("hwloc_distances_s", "name"), ("hwloc_internal_distances_s", "name")}
+
+
+def nullable_fields(chk, P, units, rule="R-NULLFIELD", exceptions=None):
+    """object names and subtypes are optional: every use as a string (strcmp, strlen, strdup, ...) is dominated by a test of
+    the same field"""
+    import must
+    exceptions = exceptions or {}
+    n = 0
+    for un in units:
+        for f in P.unit(un).funcs(only_main=False):
+            if f.entry is None:
+                continue
+            sites = []
+            for c in f.calls():
+                req = EXT_NONNULL.get(c.get("fn"))
+                if not req:
+                    continue
+                for i in req:
+                    a = args(c)
+                    if i < len(a):
+                        x = strip(a[i])
+                        if x is not None and x["k"] == "Member" and (x.get("rec"), x["f"]) in NULLABLE_FIELDS:
+                            sites.append((c, x))
+            if not sites:
+                continue
+            m = must.Must(f).run()
+            k = 0
+            for c, x in sites:
+                st = m.before.get(c["id"])
+                if st is None:
+                    continue
+                k += 1
+                n += 1
+                txt = src(x)
+                ok = must.nonnull(st, txt)
+                if not ok:
+                    # already handed to a string function on every path before (same belief), or asserted
+                    ok = any(fct[0] == "call" and fct[1] in EXT_NONNULL and txt in fct[2] for fct in st)
+                exc = exceptions.get((f.name, x["f"]))
+                if not ok and exc:
+                    chk.inst(rule, f, "%s(%s)#%d" % (c["fn"], txt, k), True, "frozen exception: %s" % exc, loc=f.loc(c), nontrivial=False)
+                else:
+                    chk.inst(rule, f, "%s(%s)#%d" % (c["fn"], txt, k), ok, "%s may be NULL: its use in %s() must be dominated by a test of it" % (txt, c["fn"]), loc=f.loc(c))
+    return n
